@@ -45,6 +45,10 @@ def make_jobs(tier, seed, scale):
     for arch in ("x64", "x86", "a64"):
         for _ in range(ncc):
             jobs.append(("cc", ["--arch", arch, "--seed", sd(), "--count", str(max(1, int(ccnt * scale)))]))
+    # ... and, executed on the host, functions with 16-20 parameters (stack-passed ones may be relocated into the frame)
+    # that call a 10-argument helper (so the frame has a call area): every parameter must arrive
+    for _ in range(ncc * 2):
+        jobs.append(("cc", ["--arch", "x64exec", "--seed", sd(), "--count", str(max(1, int(ccnt * scale // 2)))]))
     return jobs
 
 
@@ -126,7 +130,7 @@ def run(tier, args):
         if fl == "cc":
             for v in res["violations"]:
                 chk.violation(v["key"], "%s [%d programs]" % (v["what"], v["count"]), {"argv": v["spec"].split(), "flavour": "cc"})
-            for k in ("programs", "invokes", "finalize_errors", "with_locals", "big_before_small"):
+            for k in ("programs", "invokes", "finalize_errors", "with_locals", "big_before_small", "executed"):
                 cc_tot[k] = cc_tot.get(k, 0) + res[k]
             cc_tot["max_arg_stack_" + res["arch"]] = max(cc_tot.get("max_arg_stack_" + res["arch"], 0), res["max_arg_stack"])
             continue
